@@ -9,7 +9,12 @@ from .facts import VERIF, REPO, WORK
 
 def run_witnesses():
     """-> list of (item, kind, ok) ; kind in {'compile_fail', 'twin'}"""
-    crate = os.path.join(VERIF, "engines", "witness")
+    # a copy of engines/witness whose path dependencies point at the tree being analysed
+    crate = os.path.join(WORK, "witness-crate")
+    shutil.rmtree(crate, ignore_errors=True)
+    shutil.copytree(os.path.join(VERIF, "engines", "witness"), crate, ignore=shutil.ignore_patterns("target", "Cargo.lock"))
+    ct = open(os.path.join(crate, "Cargo.toml")).read().replace('"/repo/', '"%s/' % REPO.rstrip("/"))
+    open(os.path.join(crate, "Cargo.toml"), "w").write(ct)
     shutil.copy(os.path.join(REPO, "Cargo.lock"), os.path.join(crate, "Cargo.lock"))
     env = dict(os.environ, CARGO_NET_OFFLINE="true", CARGO_TARGET_DIR=os.path.join(WORK, "witness-target"))
     r = subprocess.run(["cargo", "+nightly", "test", "--doc", "--offline"], cwd=crate, env=env, stdout=subprocess.PIPE, stderr=subprocess.STDOUT, text=True)
